@@ -5,6 +5,7 @@ import (
 	"regexp"
 	"strings"
 
+	"github.com/krotik/ecal/parser"
 	"github.com/krotik/ecal/util"
 	zz "github.com/krotik/ecal/zzverif"
 )
@@ -339,4 +340,44 @@ func VerifC03Prefix() {
 	res, err := zzRun(erp, src, vs)
 	zz.Reach("evaluated")
 	c03Compare(ref, res, err)
+}
+
+// VerifC03Reeval: the value of an expression is a function of the CURRENT values of its operands: one tree (x OP y,
+// optionally with a prefix operator) is parsed once and evaluated twice, the second time after both variables got new
+// values of symbolic kind and content (as happens in loop and function bodies); both outcomes equal the reference.
+func VerifC03Reeval() {
+	erp, _ := zzProvider()
+	kinds := zz.Param("KINDS", 3)
+	o := zz.Choice("op", len(c03Ops))
+	if g := zz.Param("GROUP", -1); g >= 0 {
+		zz.Assume(c03Group(o) == g)
+	}
+	src := "x " + c03Ops[o] + " y"
+	pre := zz.Choice("pre", len(c03PreOps)+1)
+	if pre > 0 {
+		src = "x " + c03Ops[o] + " " + c03PreOps[pre-1] + "y"
+	}
+	ast, err := parser.ParseWithRuntime("t", src, erp)
+	zz.Assert(err == nil && ast.Runtime.Validate() == nil, "C03.setup")
+	if err != nil {
+		return
+	}
+	vs := zzScope()
+	for round, sfx := range []string{"a", "b"} {
+		x, xv := c03Var("x"+sfx, kinds)
+		y, yv := c03Var("y"+sfx, kinds)
+		x.name, y.name = "x", "y"
+		vs.SetValue("x", xv)
+		vs.SetValue("y", yv)
+		yo := y
+		if pre > 0 {
+			yo = c03Operand{v: c03Prefix(pre-1, y)}
+		}
+		ref := c03Apply(o, x, yo)
+		res, err := ast.Runtime.Eval(vs, make(map[string]interface{}), 1)
+		if round == 1 {
+			zz.Reach("evaluated")
+		}
+		c03Compare(ref, res, err)
+	}
 }
